@@ -525,6 +525,10 @@ impl Writer {
 
                 #[cfg(feature = "verif")]
                 crate::verif::point("merge:after_copy");
+                // the merge file must only contain live keys. It is accounted for before its hint
+                // file can list the entry, so that later merges never leave the file out
+                self.ctx.stats.entry(merge_fileid).or_default().add_live();
+
                 // write the KeyDir entry to the hint file for fast recovery. This comes before the
                 // KeyDir is changed: recovery reads a merge file through its hint file only, so an
                 // entry whose hint could not be written must keep pointing at the file it came from
@@ -539,10 +543,6 @@ impl Writer {
                 keydir_entry.fileid = merge_fileid;
                 keydir_entry.len = nbytes;
                 keydir_entry.pos = merge_pos;
-
-                // the merge file must only contain live keys
-                let mut stats = self.ctx.stats.entry(merge_fileid).or_default();
-                stats.add_live();
 
                 // switch to new merge data file if we exceed the max file size
                 merge_pos += nbytes;
